@@ -16,6 +16,7 @@ EXPLANATION = (
     "Command::_build_bin_names_internal (build()) compute a subcommand's usage_name / bin_name from the parent's bin_name "
     "and its display_name from the parent's display_name, and _build_subcommand assigns usage_name and bin_name on every "
     "path (never skipped for an already-built subcommand). R11.5 clones are faithful: every Clone impl of a clap_builder type is derive-generated, or (hand-written) builds the value field by field from clone()/copies of the same fields of self, or is in the reviewed list (ValueParser: re-boxes the inner parser through clone_any) — a clone that drops build-time state (e.g. the key cache while the Built flag is copied) parses differently from its original. R11.6 a one-shot (Built-guarded) computation must not depend on a parameter that differs between its callers: whoever builds first would decide the result for everybody (memoisation without the parameter in the key). R11.7 who may write the names: Command::bin_name / display_name / usage_name are written only by the reviewed functions (explicit setters, argv[0] capture in try_get_matches_from_mut, and the twin builders) — e.g. build() seeding the root's bin_name would make every later parse ignore argv[0]. R11.8 the private clone-and-build of the flatten_help renderers is unconditional (it depends on has_visible_subcommands / is_flatten_help_set only, not on the Built state an earlier parse may have left). NOT decided: equality of results across histories."
+    " R11.1 lemma (added): inside the library the whole-tree build passes (Command::build, _build_recursive, _build_bin_names_internal) run only on a local clone or from the build passes themselves. R11.A accessor layer (lib/accessors.py): for the is_*_set / get_* accessors this property's rules name — the bool builder sets and unsets one flag on the right edges and the predicate reads that same flag; builder scope (global/local) as in audit/setting_scope.tsv; no two predicates/builders share a flag; setting/unset_setting/global_setting/is_set forward to the right flag word, the flag word is |=bit / &=!bit / &bit!=0 with bit = 1<<discriminant, _propagate_subcommand hands g_settings to the child's settings and g_settings; plain field getters return their field."
 )
 TRUSTED = ["rustc MIR", "clapfacts", "call graph with trait fan-out"]
 ASSUMPTIONS = ["user closures (value parsers, deferred commands) are deterministic"]
